@@ -18,7 +18,7 @@ from .c02 import report, run_corpus
 from .common import Ctx
 from .dbutil import run_history
 
-DRIVERS = ["drv_db"]
+DRIVERS = ["drv_db", "drv_e2e"]
 PROP = "C04"
 EVIDENCE = dict(
     level="proof",
@@ -175,6 +175,10 @@ def structured_cases():
 
 
 def check_case(ctx: Ctx, case: dict):
+    if case.get("k") == "terminal-switch":
+        # the "that terminal" clause through the high-level path (TupimageTerminal.upload, terminal re-detection)
+        from .termid import check_terminal_switch
+        return check_terminal_switch(ctx, case, PROP)
     fd = run_history(ctx.driver("drv_db"), case)
     seen = getattr(ctx, "_c04_seen", None)
     if seen is None:
@@ -199,6 +203,8 @@ def check_case(ctx: Ctx, case: dict):
 def cases(ctx: Ctx):
     rng = ctx.rng
     yield from structured_cases()
+    from . import termid
+    yield from termid.cases(rng, 30 if ctx.quick else 300)
     while True:
         r = rng.random()
         ln = rng.choice([3, 6, 10, 20, 40, 80, 150, 400 if ctx.quick else 1500])
@@ -216,6 +222,10 @@ def run(ctx: Ctx):
         if ctx.elapsed() > budget or len(ctx.violations) + len(ctx.mismatches) >= 40:
             break
         check_case(ctx, c)
+        if c.get("k") == "terminal-switch":
+            ctx.case(c, nontrivial=any(st["op"] == "win" for st in c["steps"]))
+            ctx.count("profile:terminal-switch")
+            continue
         kinds = [o["op"] for o in c["ops"]]
         ctx.case(c, nontrivial=("mark" in kinds and "needs" in kinds[kinds.index("mark"):]))
         ctx.count("profile:" + c.get("profile", "?"))
